@@ -280,7 +280,12 @@ func runC04(c *Ctx) error {
 					}
 					tok += ":x" + strings.Join(xs, ".")
 				}
-				_, _ = box.Vote(e.ballot(id, fact, x))
+				if len(x) == 0 && c.Chance(1, 3) { // a bare sign fact, as the SendBallots handler hands it over
+					tok = "s" + tok[1:]
+					_, _ = box.VoteSignFact(e.ballot(id, fact, nil).SignFact())
+				} else {
+					_, _ = box.Vote(e.ballot(id, fact, x))
+				}
 			case k < 10:
 				tok = "c"
 				box.Count()
@@ -341,6 +346,68 @@ func runC04(c *Ctx) error {
 			c.Sample(map[string]interface{}{"suffrage": size, "t10": t10, "script": toks, "emitted": total, "per_step": outs})
 		}
 	}
+	// long runs: one box, consecutive stage points with honest votes; every voteproof is judged when it is emitted
+	// AND again at the end, when the records it came from have long been recycled
+	runs := 3
+	if c.Thorough() {
+		runs = 60
+	}
+	for r := 0; r < runs; r++ {
+		size := 3 + c.Intn(4)
+		e, err := c04newEnv(size)
+		if err != nil {
+			return err
+		}
+		box := e.newBox(base.Threshold(67))
+		type kept struct {
+			vp   base.Voteproof
+			desc string
+		}
+		var keep []kept
+		prev := valuehash.RandomSHA256()
+		heights := 6 + c.Intn(8)
+		for h := 0; h < heights; h++ {
+			point := base.NewPoint(base.Height(int64(33+h)), 0)
+			proposal, newblock := valuehash.RandomSHA256(), valuehash.RandomSHA256()
+			for _, stage := range []base.Stage{base.StageINIT, base.StageACCEPT} {
+				for _, id := range c.Perm(size) {
+					ln := e.members[id]
+					var sf base.BallotSignFact
+					if stage == base.StageINIT {
+						x := isaac.NewINITBallotSignFact(isaac.NewINITBallotFact(point, prev, proposal, nil))
+						_ = x.NodeSign(ln.Privatekey(), hNetworkID, ln.Address())
+						sf = x
+					} else {
+						x := isaac.NewACCEPTBallotSignFact(isaac.NewACCEPTBallotFact(point, proposal, newblock, nil))
+						_ = x.NodeSign(ln.Privatekey(), hNetworkID, ln.Address())
+						sf = x
+					}
+					_, _ = box.VoteSignFact(sf)
+				}
+				box.Count()
+				for _, vp := range c04drain(box, 500*time.Microsecond) {
+					keep = append(keep, kept{vp: vp, desc: c04describeAny(e, vp)})
+				}
+			}
+			prev = newblock
+		}
+		c.Eval(len(keep))
+		c.Count("long-run-voteproofs", fmt.Sprint(len(keep)))
+		for i, k := range keep {
+			in := map[string]interface{}{"suffrage": size, "heights": heights, "voteproof_index": i, "of": len(keep), "point": k.vp.Point().String()}
+			if now := c04describeAny(e, k.vp); now != k.desc {
+				c.Violation("C04:emitted-voteproof-changes-later", fmt.Sprintf("long run over %d heights: voteproof %d of %d (%s) read %q when it was emitted and reads %q at the end", heights, i, len(keep), k.vp.Point(), k.desc, now), in)
+				continue
+			}
+			if err := k.vp.IsValid(hNetworkID); err != nil {
+				c.Violation("C04:emitted-voteproof-invalid", fmt.Sprintf("long run: voteproof %d (%s) fails IsValid at the end: %s", i, k.vp.Point(), c16short(err)), in)
+				continue
+			}
+			if err := isaac.IsValidVoteproofWithSuffrage(k.vp, e.suf); err != nil {
+				c.Violation("C04:emitted-voteproof-fails-validation", fmt.Sprintf("long run: voteproof %d (%s) fails IsValidVoteproofWithSuffrage at the end: %s", i, k.vp.Point(), c16short(err)), in)
+			}
+		}
+	}
 	// concurrent voters: only the oracle
 	rounds := 40
 	if c.Thorough() {
@@ -382,4 +449,18 @@ func runC04(c *Ctx) error {
 		}
 	}
 	return nil
+}
+
+// a voteproof of any stage point: its point, result and the (signer, fact hash prefix) pairs
+func c04describeAny(e *c04env, vp base.Voteproof) string {
+	var vs []string
+	for _, sf := range vp.SignFacts() {
+		vs = append(vs, fmt.Sprintf("%d=%s@%s", e.signerID(sf), sf.Fact().Hash().String()[:6], sf.Fact().(base.BallotFact).Point()))
+	}
+	sort.Strings(vs)
+	m := "-"
+	if vp.Majority() != nil {
+		m = vp.Majority().Hash().String()[:6]
+	}
+	return fmt.Sprintf("%s %s %s[%s]", vp.Point(), vp.Result(), m, strings.Join(vs, ","))
 }
